@@ -166,8 +166,11 @@ void gen_host_op(Rng& r, Plan& p, bool allow_run, int max_run) {
         p.add("trig", {(s64)(r.chance(3, 4) ? (1u << (9 + r.below(7) % 7)) : (r.next() & 0xFFFF))});
     } else if (x < 72) {
         p.add("dataw", {(s64)(r.chance(1, 2) ? r.below(0x2000) : (r.next() & 0x7FFF)), (s64)(r.next() & 0xFFFF)});
-    } else if (x < 76) {
+    } else if (x < 74) {
         p.add("progw", {(s64)(0x1000 + r.below(0x3000)), (s64)(r.next() & 0xFFFF)});
+    } else if (x < 76) {
+        // a write through the raw memory pointer the host fetched when the machine was built (the library is not told)
+        p.add("raww", {(s64)(r.chance(1, 2) ? 0x1000 + r.below(0x3000) : 0x20000 + r.below(0x8000)), (s64)(1 + (r.next() & 0xFFFE))});
     } else if (x < 77) {
         p.add("dma", {(s64)r.below(8), (s64)r.below(0x7000), (s64)r.below(0x7000), (s64)r.range(1, 8)});
     } else if (x < 82) {
@@ -204,6 +207,10 @@ u64 apply_host_op(Box& b, FwConfig& fw, const Plan& plan, const Step& s, std::st
         }
         if (s.op == "mmiow") {
             t.MMIOWrite((u16)s.arg(0), (u16)s.arg(1));
+            return 0;
+        }
+        if (s.op == "raww") {
+            b.poke_prog((u32)(s.arg(0) & 0x3FFFF), (u16)s.arg(1));
             return 0;
         }
         if (s.op == "mmior") {
